@@ -35,8 +35,9 @@ def preload():
 
 
 def gen_case(rng, tier, idx):
+    wide = rng.random() < 0.06        # more actions than states (the tables are [state][action]: strides and shapes differ)
     # mostly moderate discounts; a few per cent close to 1, where planning on the empirical model needs thousands of sweeps
-    spec = gen_mdp_spec(rng, extreme=True, **_size(rng), proper=True, uniform_actions=True, discounts=(0.99, 0.995, 0.999) if rng.random() < 0.04 else (0.5, 0.8, 0.9, 0.95))
+    spec = gen_mdp_spec(rng, extreme=True, **(dict(min_states=2, max_states=3, max_actions=7) if wide else _size(rng)), proper=True, uniform_actions=True, discounts=(0.99, 0.995, 0.999) if rng.random() < 0.04 else (0.5, 0.8, 0.9, 0.95))
     cfg = dict(m=rng.randint(1, 5) if rng.random() < 0.97 else rng.choice((20, 50)), tol=rng.choice((1e-3, 1e-5, 1e-5, 1e-8)), episodes=rng.randint(1, 6) if rng.random() < 0.98 else 0, seed=rng.choice((0, 1, 5, 99, None)),
                reuse=rng.randrange(1000) if rng.random() < 0.15 else None, alias=rng.choice(('fresh', 'fresh', 'cached', 'shared', 'tuple')),
                explicit_lists=rng.choice((False, False, False, True, 'swap', 'reversed')), model_update=rng.random() < 0.12)
